@@ -207,10 +207,11 @@ class Run:
                     if must_cancel:
                         # the host scope is cancelled: this coroutine lives in a cancelled scope and
                         # has to be interrupted at a checkpoint; give it a few, then a bounded wait
+                        # (no cancel scope is entered here: entering one would itself restart the
+                        # delivery in the cancelled parent and hide a lost cancellation)
                         for _ in range(3):
                             await anyio.sleep(0)
-                        with anyio.move_on_after(NOT_CANCELLED_WAIT, shield=False):
-                            await anyio.Event().wait()
+                        await anyio.sleep(NOT_CANCELLED_WAIT)
                         self.ev("cb_async_not_cancelled", x)
                     return ("async", x, tid, CV.get())
                 except CANCELLED:
